@@ -38,6 +38,14 @@ def run(ck):
         if metric == 'auc':
             K = 2; L = max(L, 80)
         X = xr.make_X('random', n, d, rng)
+        # discrete table under soft routing: three distinct rows, each duplicated far beyond the leaf size, so deep nodes hold copies of ONE row:
+        # every projection in such a node is equal (zero inter-quartile range, gate scale at its floor) and the query rows sit exactly on the split
+        discrete = soft and (i % 6 == 5) and not single_leaf and metric != 'auc'
+        if discrete:
+            base = np.round(xr.make_X('random', 3, d, rng) * 2) / 2
+            X = base[rng.integers(0, 3, size=n)].astype(np.float32); X[:3] = base
+            L = max(8, n // 8)
+            ck.count('discrete table (3 distinct rows) under soft routing')
         # imbalance: class 0 takes up to 95%
         p0 = float(rng.choice([1.0 / K, 0.6, 0.8, 0.95]))
         pr = np.array([p0] + [(1 - p0) / (K - 1)] * (K - 1))
@@ -49,7 +57,7 @@ def run(ck):
         if gap:
             y[y == 1] = 0
             ck.count('middle class absent from training labels')
-        desc = dict(i=i, K=K, mode=mode, metric=metric, n_trees=n_trees, soft=soft, n=n, L=L, p0=p0, gap=gap, seed=ck.seed)
+        desc = dict(i=i, K=K, mode=mode, metric=metric, n_trees=n_trees, soft=soft, n=n, L=L, p0=p0, gap=gap, discrete=discrete, seed=ck.seed)
         xr.seed_all(1200 + i + ck.seed)
         model = xr.xRFM(rfm_params=xr.default_rfm_params(iters=1, reg=1e-2, bandwidth=4.0), max_leaf_size=L, n_trees=n_trees, verbose=False,
                         tuning_metric=metric, classification_mode=mode, use_temperature_tuning=False,
@@ -63,6 +71,9 @@ def run(ck):
             ck.count(f'fit failed ({metric})'); ck.notes.append(f'fit failed {desc}: {e!r}'[:300]); continue
         ck.count(f'K={K}'); ck.count(mode); ck.count(f'metric={metric}'); ck.count(f'trees={len(model.trees)}/{n_trees}'); ck.count('soft' if soft else 'hard'); ck.count(f'leaf cap {model.max_leaf_count_in_ensemble} keep {model.keep_weight_frac_in_predict} T {model.split_temperature}')
         Q = np.concatenate([X[:4], xr.make_X('random', 4, d, rng), 1e6 * (np.abs(xr.make_X('random', 2, d, rng)) + 1.0)]).astype(np.float32)
+        if discrete:
+            far = X[:2].copy(); far[:, -1] = 1e6            # far rows that share all but one coordinate with a training row
+            Q = np.concatenate([Q[:8], far, Q[8:]]).astype(np.float32)
         Qt = torch.tensor(Q)
         with xr.quiet():
             P = np.asarray(model.predict_proba(Qt), dtype=np.float64)
